@@ -311,6 +311,8 @@ pub fn fault(d: &D, which: usize) -> D {
     let name = d.name.clone();
     match (&d.kind, which % 5) {
         (Kind::Value, 0) | (Kind::Value, 1) => D { text: format!("{name} REAL ::= 0"), name, kind: Kind::Value, shape: "fault".into(), refs: vec![], fault: Some("VALUEFORM".into()) },
+        // a value whose inline governing type has an inverted range (the value itself is fine)
+        (Kind::Value, 2) => D { text: format!("{name} INTEGER (10..1) ::= 5"), name, kind: Kind::Value, shape: "fault".into(), refs: vec![], fault: Some("VALUEFORM".into()) },
         (Kind::Value, _) => D { text: format!("{name} UTF8String ::= {{ \"a\", \"b\" }}"), name, kind: Kind::Value, shape: "fault".into(), refs: vec![], fault: Some("VALUEFORM".into()) },
         (_, 0) => D { text: format!("{name} ::= REAL"), name, kind: Kind::Type, shape: "fault".into(), refs: vec![], fault: Some("REAL".into()) },
         (_, 1) => D { text: format!("{name} ::= VideotexString"), name, kind: Kind::Type, shape: "fault".into(), refs: vec![], fault: Some("VIDEOTEX".into()) },
